@@ -8,20 +8,26 @@ func vpC13Name(kind int) string {
 	return []string{"ItemCollection", "IRIs", "Collection", "OrderedCollection", "CollectionPage", "OrderedCollectionPage"}[kind]
 }
 
+// the declared totalItems of a collection is whatever its sender wrote: arbitrary, and unrelated
+// to the number of members held (Count is the number of members)
 func vpC13New(kind int) CollectionInterface {
+	total := uint(0)
+	if kind >= 2 {
+		total = uint(vpInt(0, 9))
+	}
 	switch kind {
 	case 0:
 		return &ItemCollection{}
 	case 1:
 		return &IRIs{}
 	case 2:
-		return &Collection{ID: "https://h.ex/col", Type: CollectionType}
+		return &Collection{ID: "https://h.ex/col", Type: CollectionType, TotalItems: total}
 	case 3:
-		return &OrderedCollection{ID: "https://h.ex/col", Type: OrderedCollectionType}
+		return &OrderedCollection{ID: "https://h.ex/col", Type: OrderedCollectionType, TotalItems: total}
 	case 4:
-		return &CollectionPage{ID: "https://h.ex/col", Type: CollectionPageType}
+		return &CollectionPage{ID: "https://h.ex/col", Type: CollectionPageType, TotalItems: total}
 	default:
-		return &OrderedCollectionPage{ID: "https://h.ex/col", Type: OrderedCollectionPageType}
+		return &OrderedCollectionPage{ID: "https://h.ex/col", Type: OrderedCollectionPageType, TotalItems: total}
 	}
 }
 
